@@ -16,6 +16,7 @@ import re
 
 from vf import astn, fm
 from vf.core import Collector
+from vf.protect import protected
 from vf.docbase import DocProp, ellipsis_mechanism, first_line_diff, opts_key, rand_opts
 from vf.spans import first_diff as span_diff
 from vf.spans import spans
@@ -61,7 +62,7 @@ class C09(DocProp):
             "on/off differential and second pass. Non-trivial: the option changed the text; distinct by hash.")
     assumptions = ["document trees are read with flowmark's own reader; text nodes are compared after mapping U+2026 back to "
                    "'...' and deleting the spaces directly around dot runs"]
-    deciding = {"func": {"quick": 2396745, "thorough": 2396745}, "diff": {"quick": 1500, "thorough": 15000}}
+    deciding = {"func": {"quick": 2396745, "thorough": 2396745}, "diff": {"quick": 1500, "thorough": 15000}, "plain": {"quick": 500, "thorough": 5000}}
     profiles = ["typo", "typo", "core", "tags"]
     ndocs = {"quick": 50, "thorough": 500}
     soft_timeout = 300.0
@@ -87,6 +88,19 @@ class C09(DocProp):
             return self._exh(case, col)
         text, feats = self.load(case)
         self.feats_hist(col, feats)
+        # "every other option setting" includes plaintext mode, where there is no tree: the textual span scanner decides
+        col.case()
+        o = dict(case["opts"][0], plaintext=True)
+        off = fm.fmt(text, **dict(o, ellipses=False))
+        on = fm.fmt(text, **dict(o, ellipses=True))
+        if isinstance(on, str) and isinstance(off, str):
+            col.mon("plain")
+            lit = lambda t: [_WS.sub(" ", t[a:b]) for a, b, k in protected(t) if k != "esc"]  # noqa: E731
+            if lit(on) != lit(off):
+                df = span_diff(lit(off), lit(on))
+                col.violation("plain", "C09/plaintext/literal-span-changed", dict(case, opts=[o]), {"off": repr(df[1])[:200], "on": repr(df[2])[:200]})
+            elif _WS.sub("", canon(on)) != _WS.sub("", canon(off)):
+                col.violation("plain", "C09/plaintext/other-text-changed", dict(case, opts=[o]), {"diff": first_line_diff(off, on)})
         for o in case["opts"]:
             col.case()
             o = dict(o, plaintext=False)
